@@ -8,7 +8,7 @@ UNIT = dict(
     name='bits',
     pre_includes=['spec.h'],
     loop_contracts_required=['pcg_op_call_1'],
-    roots=['rec:bs*', 'rec:arr*', 'rec:mt', 'rec:pcg', 'fn:frgv::frgv_force', 'fn:frg::operator*', 'fn:frg::insertion_sort',
+    roots=['rec:bs*', 'rec:arr*', 'rec:mt', 'rec:pcg', 'fn:frgv::frgv_force', 'fn:frgv::frgv_concat', 'fn:frg::operator*', 'fn:frg::insertion_sort',
            'fn:frg::array<*>::swap'],
     assumptions=['bitset<N> is verified for N in {1,7,63,64,65,127,128,129,200} (class Pc), not for all N in one proof',
                  'set/reset/flip/test/operator[] are specified for pos < N (frigg has no out_of_range exception)'],
@@ -45,6 +45,14 @@ def obligations(tier):
     obs.append(dict(id='mt.reference_vector', entry='h_mt_ref', cls='B', serves=['C18'], unwind=626,
                     bound='seeds 5489 (default constructor) and 1: the first three outputs equal the published MT19937 values; loops unwound 626',
                     function='mt_op_call', timeout=300))
+    # word indices at the ends of the three segments of the regeneration loop (0..226, 227..622, 623) and inside them
+    for j in ((0, 226, 227, 622, 623) if tier == 'quick' else (0, 1, 100, 226, 227, 228, 396, 397, 500, 621, 622, 623)):
+        obs.append(dict(id='mt.twist.word%d' % j, entry='h_mt_twist', cls='P', serves=['C18'], unwind=626, function='mt_op_call', timeout=900, cost=30, defines=['MT_J=%d' % j], flags=['--max-field-sensitivity-array-size', '1024'],
+                        bound='word %d of the state; the state itself is arbitrary' % j))
+    for j in ((1, 623) if tier == 'quick' else (1, 2, 300, 623)):
+        obs.append(dict(id='mt.seed.word%d' % j, entry='h_mt_seed', cls='P', serves=['C18'], unwind=626, function='mt_seed', timeout=900, cost=30, defines=['MT_J=%d' % j], flags=['--max-field-sensitivity-array-size', '1024'],
+                        bound='word %d of the seeded state; the seed is arbitrary' % j))
+    obs.append(dict(id='arr.concat', entry='h_arr_concat', cls='P', serves=['C18'], unwind=8, function='frg_array_concat__int_frg_array_int_2__frg_array_int_3__frg_array_int_1', timeout=300))
     nmax = 6 if tier == 'thorough' else 5
     for n in range(0, nmax + 1):
         for mode in range(3):
